@@ -432,3 +432,15 @@ for _p in ("C06", "C07"):
 V("quadric action with the matrix and the inverse exchanged", "C07", CURVE, APPLY_ANCHOR,
   ("    def __apply__(self, transformation):\n        m = transformation.inverse().array if self.is_dual else transformation.array\n        result = self.copy()\n"
    "        result.array = matmul(matmul(m, self.array, transpose_a=True), m)\n        return result\n\n") + APPLY_ANCHOR, "E4.V5", "QuadricTensor.__apply__")
+
+
+# ------------------------------------------------------------------------------------------------ C13 measure formulas (E12.measure)
+V("D4 regression: Circle.area with a factor 2", "C13", CURVE, "        return np.pi * self.radius**2", "        return 2 * np.pi * self.radius**2", "E12.measure", "Circle.area", quick=True)
+V("Sphere.volume with the exponent of the surface", "C13", CURVE, "        return self._alpha(n) * self.radius**n", "        return self._alpha(n) * self.radius ** (n - 1)", "E12.measure", "Sphere.volume")
+V("Sphere.area without the factor n", "C13", CURVE, "        return n * self._alpha(n) * self.radius ** (n - 1)", "        return self._alpha(n) * self.radius ** (n - 1)", "E12.measure", "Sphere.area")
+V("unit-ball constant with gamma(n/2) in place of gamma(n/2 + 1)", "C13", CURVE, "        return math.pi ** (n / 2) / math.gamma(n / 2 + 1)", "        return math.pi ** (n / 2) / math.gamma(n / 2)", "missed")
+V("unit-ball constant with pi**n", "C13", CURVE, "        return math.pi ** (n / 2) / math.gamma(n / 2 + 1)", "        return math.pi ** n / math.gamma(n / 2 + 1)", "E12.measure", "Sphere")
+V("twin: Circle.area with the factors reordered", "C13", CURVE, "        return np.pi * self.radius**2", "        r = self.radius\n        return r * r * np.pi", "silent")
+V("twin: Sphere.volume with the constant inlined", "C13", CURVE, "        return self._alpha(n) * self.radius**n", "        return self.radius**n * math.pi ** (n / 2) / math.gamma(n / 2 + 1)", "silent")
+V("twin: Sphere.area in the form 2 pi^(n/2) / Gamma(n/2) r^(n-1)", "C13", CURVE, "        return n * self._alpha(n) * self.radius ** (n - 1)",
+  "        return 2 * math.pi ** (n / 2) / math.gamma(n / 2) * self.radius ** (n - 1)", "silent")
